@@ -13,7 +13,11 @@ Oracle: brute force in the harness — names collected by an own traversal of th
         over known and new variables are added, in every order, with every reader (variables, n_variables, get_bounds,
         repr, summary, solve, the private predicates) — or none — between the edits; at every read the list must be the
         natural-sorted set of variables of the CURRENT objective and constraints as the harness records them, and
-        equal that of a fresh Problem; Solution.values has exactly those keys.  The editing methods themselves are tied
+        equal that of a fresh Problem; Solution.values has exactly those keys.  Bounds re-declared after they were reported:
+        between the reads `.lb` / `.ub` of scalars, vector elements and matrix entries (mentioned by the problem or not yet)
+        are assigned (None, +-inf, pinned, crossed, one-sided), with and without structural edits around them; get_bounds
+        must report, position by position, the harness's own record of what the variables carry NOW, and equal a fresh
+        Problem's.  The editing methods themselves are tied
         by StateTie (translation of minimize / maximize / subject_to / _invalidate_caches).
 Repaired earlier: F17 (reversed slice through the shortcut), F18 (x1 / x01 tie).
 """
@@ -1398,18 +1402,156 @@ def edit_pieces(spec):
     return ps, free
 
 
+# ---- bounds re-declared after they were reported.  `lb` / `ub` are plain attributes of the Variable objects (scalars, the
+# elements of a VectorVariable, the entries of a MatrixVariable); assigning them is not a structural edit of the Problem (no
+# minimize / maximize / subject_to is involved), so whatever the problem remembered from an earlier read must not survive it.
+# A step ["bnd", target, "lb" | "ub" | "both", value(s)] assigns on the object(s) `target` denotes; values are JSON-safe
+# (None, numbers, "inf", "-inf").  The harness updates its OWN table name -> (lb, ub) (Built.decl_bounds) from the step,
+# never from the objects; every later read must report that table, position by position.
+
+
+BOUND_VALUES_LB = [None, "-inf", 0, 0.5, -5.0, 3.0, -1e8, 1e-9, 7, 1e6]
+BOUND_VALUES_UB = [None, "inf", 0, 0.5, 5.0, 3.0, 1e8, -1e-9, -7, -1e6]
+BOUND_BOTH = [[None, None], ["-inf", "inf"], [2.0, 2.0], [0, 0], [-3, -3], [5.0, 1.0], [1e6, -1e6], ["inf", "-inf"], [0.25, 0.75], [None, "inf"],
+              ["-inf", None], [-1.5, None], [None, 1.5], [0.0, 1.0]]      # free, infinite, pinned, crossed, ordinary, one-sided
+
+
+def dec_bound(v):
+    return float(v) if isinstance(v, str) else v
+
+
+def bound_targets(spec):
+    """term specs that denote ONE Variable object of a declared scalar / vector / matrix (first, last, middle positions)"""
+    out = []
+    for d in spec["decls"]:
+        k, nm = d[0], d[1]
+        if k == "scalar":
+            out.append(["scalar", nm])
+        elif k == "vec":
+            n = d[2]
+            for i in sorted({0, n // 2, n - 1}):
+                out.append(["elem", ["vec", nm], i])
+        elif k == "mat":
+            r, c = d[2], d[3]
+            for i, j in sorted({(0, 0), (r - 1, c - 1), (r - 1, 0), (0, c - 1), (r // 2, c // 2)}):
+                out.append(["melem", ["mat", nm], i, j])
+    return out
+
+
+def gen_bound_step(rng, targets):
+    t = rng.choice(targets)
+    k = rng.random()
+    if k < 0.35:
+        return ["bnd", t, "lb", rng.choice(BOUND_VALUES_LB)]
+    if k < 0.7:
+        return ["bnd", t, "ub", rng.choice(BOUND_VALUES_UB)]
+    return ["bnd", t, "both"] + list(rng.choice(BOUND_BOTH))
+
+
+def apply_bound_step(b, st):
+    """assign on the real object(s) and update the harness's own record; -> name of the variable"""
+    v = b.term(st[1])
+    objs = [v]
+    # a same-name clone (a second object declared identically) is re-declared identically: the property speaks of names
+    clone = None
+    if st[1][0] == "scalar" and ("s2:" + st[1][1]) in b.objs:
+        clone = b.objs["s2:" + st[1][1]]
+    elif st[1][0] == "elem" and ("v2:" + st[1][1][1]) in b.objs:
+        clone = b.objs["v2:" + st[1][1][1]][st[1][2]]
+    if clone is not None:
+        objs.append(clone)
+    lo, hi = b.decl_bounds[v.name]
+    if st[2] in ("lb", "both"):
+        lo = dec_bound(st[3])
+    if st[2] == "ub":
+        hi = dec_bound(st[3])
+    elif st[2] == "both":
+        hi = dec_bound(st[4])
+    for o in objs:
+        if st[2] in ("lb", "both"):
+            o.lb = lo
+        if st[2] in ("ub", "both"):
+            o.ub = hi
+    b.decl_bounds[v.name] = (lo, hi)
+    return v.name
+
+
+def bound_history_cover():
+    """(model: general path / single-vector shortcut) x (which reader reported first, or none) x (pattern: re-declare between two
+    reads with no structural edit; several re-declarations and back; a structural edit that does not mention the variable before
+    the next read; one that mentions it, then re-declare; re-declare before anything was read; a variable that enters the problem
+    only later) with targets (scalar, first / last / middle vector element, matrix entry, mirrored entry of a symmetric matrix,
+    element of an integer vector, a variable the problem does not mention) and new values (None, +-inf, pinned, crossed,
+    one-sided, ordinary) cycling through all of them: [(spec, steps)]"""
+    decls = [["vec", "x", 5, 0.0, 10.0], ["scalar", "y", -1.0, 1.0], ["scalar", "t", None, None], ["mat", "A", 2, 3, False, 0.0, 1.0],
+             ["mat", "S", 3, 3, True, None, 4.0], ["vec", "k10", 3, 0, 5, "integer"], ["scalar", "u2", 0.0, None], ["scalar", "bz", None, None, "binary"],
+             ["param", "p", 1.5]]
+    X, A, S_, K = ["vec", "x"], ["mat", "A"], ["mat", "S"], ["vec", "k10"]
+    y, t_, u = ["scalar", "y"], ["scalar", "t"], ["scalar", "u2"]
+    models = [
+        {"kind": "bound-history", "decls": decls, "objective": [["lc", X], ["mul", 2.0, y], ["msum", A], ["trace", S_], ["elem", K, 1], ["scalar", "bz"]],
+         "constraints": [[["add", ["vsum", X], y], ">=", 1.0], [["melem", S_, 2, 0], "<=", 3.0]]},
+        {"kind": "bound-history", "decls": decls, "objective": [["vsum", X]], "constraints": [[["lc", X], "<=", 1.0]], "maximize": True},   # shortcut path
+        {"kind": "bound-history", "decls": decls, "objective": [t_, ["sq", y]], "constraints": []},
+    ]
+    targets = [
+        [y, ["elem", X, 0], ["elem", X, 4], ["elem", X, 2], ["melem", A, 1, 2], ["melem", S_, 2, 0], ["melem", S_, 1, 1], ["elem", K, 1], ["scalar", "bz"], u],
+        [["elem", X, 0], ["elem", X, 4], ["elem", X, 2], ["elem", X, 1], y],
+        [t_, y, u, ["elem", X, 3]],
+    ]
+    changes = ([["lb", v] for v in BOUND_VALUES_LB] + [["ub", v] for v in BOUND_VALUES_UB] + [["both"] + p for p in BOUND_BOTH])
+    con_other = ["con", "single", [[["add", t_, ["param", "p"]], "<=", 9.0]]]
+    con_u = ["con", "list", [[u, ">=", 0], [["melem", A, 0, 0], "<=", 1.0]]]
+    lasts = ["get_bounds", "variables", "solve", "n_variables", "summary", "repr"]
+    out, n = [], 0
+
+    def bnd(mi, j):
+        tg = targets[mi][j % len(targets[mi])]
+        return ["bnd", tg] + changes[(3 * j + mi) % len(changes)]
+
+    for mi, spec in enumerate(models):
+        for ri, rd in enumerate(EDIT_READS):
+            first = [] if rd == "none" else [["read", rd]]
+            for pat in range(6):
+                n += 1
+                last = ["read", lasts[n % len(lasts)]]
+                gb = ["read", "get_bounds"]
+                if pat == 0:
+                    steps = first + [bnd(mi, n), last]
+                elif pat == 1:
+                    steps = first + [bnd(mi, n), bnd(mi, n + 3), last, bnd(mi, n)[:2] + ["both", None, None], gb]
+                elif pat == 2:
+                    steps = first + [bnd(mi, n), con_other, last, bnd(mi, n + 1), gb]
+                elif pat == 3:
+                    steps = first + [con_u, last, ["bnd", u] + changes[(n * 5) % len(changes)], gb, bnd(mi, n), last]
+                elif pat == 4:
+                    steps = [bnd(mi, n)] + first + [bnd(mi, n + 2), last, ["obj", "min", spec["objective"]], bnd(mi, n + 2)[:2] + ["ub", 12.5], gb]
+                else:
+                    steps = first + [["bnd", u, "lb", -2.0], last, con_u, gb, ["bnd", u, "both", "-inf", 8.0], ["bnd", ["melem", A, 0, 0], "ub", None], last]
+                out.append((spec, steps))
+    return out
+
+
 def gen_edit_history(rng, spec):
     """a history of edits and reads on the problem of `spec` (built with its own objective and constraints):
     ["obj", "min" | "max", [terms]] replaces the objective, ["con", "single" | "list", [[term, sense, rhs], ...]] adds
-    constraints, ["read", kind] observes (kind = which reader touches the problem first; "none" = nothing is read)"""
+    constraints, ["bnd", target, which, value(s)] re-declares bounds of one variable (not a structural edit),
+    ["read", kind] observes (kind = which reader touches the problem first; "none" = nothing is read)"""
     pieces, free = edit_pieces(spec)
     if not pieces:
         return []
+    btargets = bound_targets(spec)
     cur = list(spec["objective"] or [])
     steps = []
     if rng.random() < 0.85:
         steps.append(["read", rng.choice(EDIT_READS[:-1])])
     for _ in range(rng.randint(2, 6)):
+        if btargets and rng.random() < 0.35:
+            for _k in range(rng.choice([1, 1, 2, 3])):
+                steps.append(gen_bound_step(rng, btargets))
+            if rng.random() < 0.8:
+                steps.append(["read", rng.choice(EDIT_READS)])
+            continue
         if rng.random() < 0.55:
             k = rng.random()
             if k < 0.3 and len(cur) >= 2:
@@ -1479,6 +1621,7 @@ def run_edit_history(b, steps, rep=None):
     prob = b.problem
     cur = {"obj": b.objective, "sense": "max" if b.spec.get("maximize") else "min", "cons": list(b.con_objs)}
     fails, kept = [], []
+    redeclared = set()          # names whose bounds were re-assigned during the history
 
     def count(k):
         if rep is not None:
@@ -1529,6 +1672,7 @@ def run_edit_history(b, steps, rep=None):
             if cur["cons"]:
                 fp.subject_to(list(cur["cons"]))
             fresh = [v.name for v in fp.variables]
+            fresh_bounds = fp.get_bounds()
         kept.append((got_vs, list(got_vs)))
         kept.append((bs, list(bs)))
         if names != want:
@@ -1545,8 +1689,16 @@ def run_edit_history(b, steps, rep=None):
         wb = [[None if x is None else float(x) for x in b.decl_bounds.get(nm, ("?", "?"))] for nm in want]
         gb = [[None if x is None else float(x) for x in p] for p in bs]
         if gb != wb:
-            fails.append(dict(info, what="after edits, get_bounds is not the declared bounds of the current model's variables",
-                              got=str(gb)[:200], want=str(wb)[:200]))
+            pos = [[j, want[j] if j < len(want) else None, gb[j] if j < len(gb) else None, wb[j] if j < len(wb) else None]
+                   for j in range(max(len(gb), len(wb))) if j >= len(gb) or j >= len(wb) or gb[j] != wb[j]]
+            fails.append(dict(info, what="get_bounds does not report the bounds the variables of the current model have NOW (the harness's own record "
+                                         "of the declarations and of every later .lb / .ub assignment)" if redeclared else
+                                         "after edits, get_bounds is not the declared bounds of the current model's variables",
+                              got=str(gb)[:200], want=str(wb)[:200], positions=pos[:8], redeclared=sorted(redeclared)[:8]))
+        fb = [[None if x is None else float(x) for x in p] for p in fresh_bounds]
+        if fresh == names and fb != gb:
+            fails.append(dict(info, what="get_bounds differs from that of a fresh Problem with the same objective and constraints",
+                              got=str(gb)[:200], want=str(fb)[:200], record=str(wb)[:200], redeclared=sorted(redeclared)[:8]))
         if keys is not None and keys != want:
             fails.append(dict(info, what="after edits, the keys of Solution.values are not the current model's variables", got=keys[:40], want=want[:40]))
         if fresh != names:
@@ -1573,6 +1725,10 @@ def run_edit_history(b, steps, rep=None):
                 prob.subject_to(list(cs))
             cur["cons"].extend(cs)
             count("edit-history:constraints-added")
+        elif st[0] == "bnd":
+            redeclared.add(apply_bound_step(b, st))
+            count("edit-history:bounds-redeclared")
+            count("edit-history:bounds-redeclared-" + ("after-read" if kept else "before-any-read"))
         elif st[1] != "none":
             count("edit-history:read-" + st[1])
             judge(i, st[1])
@@ -1587,7 +1743,7 @@ def run_edit_history(b, steps, rep=None):
 
 def edit_history_cases(rng, n_random):
     """[(spec, construction order, steps)]: the fixed cover and `n_random` generated specs with a generated history each"""
-    out = [(spec, 0, steps) for spec, steps in edit_history_cover()]
+    out = [(spec, 0, steps) for spec, steps in edit_history_cover()] + [(spec, 0, steps) for spec, steps in bound_history_cover()]
     kinds = ["shortcut", "shortcut", "nearmiss", "general", "general", "general", "collision", "names", "names", "matview"]
     for _ in range(n_random):
         spec = gen_spec(rng, force=rng.choice(kinds))
@@ -1687,7 +1843,8 @@ def run(ctx) -> core.Report:
                            "transposed afterwards, through sum / Frobenius norm / element-wise ops / trace / diag / rows / columns / matrix "
                            "constraints) + edit histories (objective replaced by one over fewer / other / the same / more / no variables, constraints over known and new "
                            "variables added singly and as lists, in every order, with variables / n_variables / get_bounds / repr / summary / solve / private predicates "
-                           "or nothing read between the edits; judged at every read against the harness's own record of the current model and a fresh Problem) "
+                           "or nothing read between the edits; bounds of scalars / vector elements / matrix entries re-assigned (.lb / .ub: None, +-inf, pinned, crossed) between "
+                           "the reads with and without structural edits; judged at every read against the harness's own record of the current model and bounds and a fresh Problem) "
                            "+ histories (edit after read; every read-only helper of Problem, enumerated from the class, and the Solution "
                            "accessors interleaved between build / solve / edit, lists returned earlier re-checked) + depth x operand position (chains "
                            "399 .. 700 deep with one variable only in an exponent / right operand / under a function / inside a vector or "
